@@ -62,9 +62,11 @@ ASSUMPTIONS = [
     'int and CIMInt results are not distinguished (the statement does not name the result type)',
 ]
 BOUNDS = {
-    'quick': {'valuemap_len': 3, 'atoms': 24, 'sizes_types': 8, 'kinds_len': 2, 'kinds_faked_len': 2,
-              'novm_len': 4, 'wide_len': 0},
-    'thorough': {'valuemap_len': 4, 'atoms': 24, 'sizes_types': 8, 'sizes_len': 3, 'kinds_len': 3,
+    'quick': {'valuemap_len': 3, 'atoms': 24, 'sizes_long_types': ['uint8', 'sint32'],
+              'sizes_len_long': 3, 'sizes_len_short': 2, 'sizes_short_groups': 1, 'kinds_len': 2,
+              'kinds_faked_len': 2, 'novm_len': 4, 'wide_len': 0},
+    'thorough': {'valuemap_len': 4, 'atoms': 24, 'sizes_long_types': ['uint8', 'sint32'],
+                 'sizes_len_long': 4, 'sizes_len_short': 3, 'sizes_short_groups': 5, 'kinds_len': 3,
                  'kinds_faked_len': 2, 'novm_len': 5, 'wide_len': 2},
 }
 
@@ -190,13 +192,25 @@ def make_class(spec):
         CIMParameter('Q', typ, is_array=(kind == 'param[]'), qualifiers=quals, **extra)])])
 
 
+_CODE_LABEL = {}
+
+
 def pywbem_frames(exc):
     """function names of the frames inside the pywbem under test, outermost first"""
-    prefix = os.path.join(mc.REPO, '')
     out = []
-    for fs in traceback.extract_tb(exc.__traceback__):
-        if fs.filename.startswith(prefix):
-            out.append('%s.%s' % (os.path.splitext(os.path.basename(fs.filename))[0], fs.name))
+    tb = exc.__traceback__
+    while tb is not None:
+        code = tb.tb_frame.f_code
+        label = _CODE_LABEL.get(code, 0)
+        if label == 0:
+            label = None
+            if code.co_filename.startswith(os.path.join(mc.REPO, '')):
+                label = '%s.%s' % (os.path.splitext(os.path.basename(code.co_filename))[0],
+                                   code.co_name)
+            _CODE_LABEL[code] = label
+        if label is not None:
+            out.append(label)
+        tb = tb.tb_next
     return out
 
 
@@ -536,7 +550,13 @@ def shape(spec):
 
 
 def fkey(f):
-    return (f['aspect'], f['what'], f['at'])
+    """failure class used while reducing a case. For tovalues only the level the answer should
+    have come from: which entry pywbem answered with instead depends on incidental details
+    (duplicate strings, entry order) and is read off the reduced witness."""
+    what = f['what']
+    if f['aspect'] == 'tovalues':
+        what = what.split(':')[0]
+    return (f['aspect'], what, f['at'])
 
 
 def signature(f, spec):
@@ -553,6 +573,7 @@ class Reducer:
     def __init__(self):
         self.examined = {}
         self.reduced = {}
+        self.witness = {}
         self.tests = 0
 
     def fails_of(self, spec):
@@ -565,34 +586,62 @@ class Reducer:
                 self.examined[k] = r
         return r
 
-    def reduce(self, spec, key):
+    def note(self, spec, res):
+        """remember the result of a case the shard examined anyway"""
+        if len(self.examined) < 200000:
+            self.examined[json.dumps(spec, sort_keys=True)] = set(fkey(f) for f in res['fails'])
+
+    def reduce(self, spec, key, depth=0):
         k = (json.dumps(spec, sort_keys=True), key)
         out = self.reduced.get(k)
         if out is not None:
             return out
         out = None
         vm, vals = spec['vm'], spec['vals']
-        # 1. drop one ValueMap entry together with its Values item
+        # 1. drop one ValueMap entry together with its Values item (last entry first: prefixes
+        #    were enumerated before)
         if isinstance(vm, list) and isinstance(vals, list):
-            for i in range(len(vm)):
+            for i in reversed(range(len(vm))):
                 cand = dict(spec, vm=vm[:i] + vm[i + 1:],
                             vals=vals[:i] + vals[i + 1:] if i < len(vals) else vals)
                 if key in self.fails_of(cand):
-                    out = self.reduce(cand, key)
+                    out = self.reduce(cand, key, depth)
                     break
         if out is None:
             out = self.polish(spec, key)
+            if out != spec and depth < 6:
+                out = self.reduce(out, key, depth + 1)
         self.reduced[k] = out
         return out
 
     def polish(self, spec, key):
-        # 2. canonical element / route / type / default
+        def malformed(s):
+            if not isinstance(s['vm'], list):
+                return 0
+            return sum(1 for t in s['vm'] if R.parse_entry(t) is None)
+
+        def attempt(cand):
+            return valid(cand) and malformed(cand) <= malformed(spec) and key in self.fails_of(cand)
+
+        def canonical_values(s):
+            if isinstance(s['vm'], list) and isinstance(s['vals'], list):
+                n = len(s['vm'])
+                for cand in (dict(s, vals=VALSTR[:n], dflt=None), dict(s, vals=VALSTR[:n])):
+                    if cand != s and attempt(cand):
+                        return cand
+            if s['dflt'] is not None and attempt(dict(s, dflt=None)):
+                return dict(s, dflt=None)
+            return s
+
+        # 2. canonical element / route / type / probes, then Values of equal size and no default
         for field, value in (('route', 'stub'), ('kind', 'prop'), ('cimint', False),
-                             ('type', 'uint8'), ('dflt', None), ('probes', 'bounds')):
+                             ('type', 'uint8'), ('probes', 'bounds')):
             if spec[field] != value:
                 cand = dict(spec, **{field: value})
-                if key in self.fails_of(cand):
+                if attempt(cand):
                     spec = cand
+        spec = canonical_values(spec)
+
         # 3. generic minimisation of the two arrays (index 0 of a list is a tag for mc.minimize)
         def pack(s):
             d = {}
@@ -611,13 +660,25 @@ class Reducer:
                     x = x[1:]
                 s[k] = x
             return s
+        nulls = (spec['vm'].count(None) if isinstance(spec['vm'], list) else 0)
 
         def still(d):
             s = unpack(d)
-            return s is not None and valid(s) and key in self.fails_of(s)
+            if s is None or not valid(s):
+                return False
+            if isinstance(s['vm'], list) and s['vm'].count(None) > nulls:
+                return False
+            return attempt(s)
         frozen = set(VALSTR) | {DFLT, 'NULL', 'L'}
-        small = M.minimize(pack(spec), still, frozen=frozen, max_tests=600)
-        return unpack(small)
+        spec = unpack(M.minimize(pack(spec), still, frozen=frozen, max_tests=600))
+        # 4. plain literals where the entry does not matter
+        if isinstance(spec['vm'], list):
+            for i, t in enumerate(spec['vm']):
+                if t != '0' and isinstance(t, str):
+                    cand = dict(spec, vm=spec['vm'][:i] + ['0'] + spec['vm'][i + 1:])
+                    if attempt(cand):
+                        spec = cand
+        return canonical_values(spec)
 
 
 def record(spec, res, acc, reducer):
@@ -644,10 +705,14 @@ def record(spec, res, acc, reducer):
             small, sf = spec, f
         else:
             small = reducer.reduce(spec, key)
-            sf = [g for g in examine(small)['fails'] if fkey(g) == key]
-            if not sf:
-                raise HarnessError('reduced witness does not fail: %r -> %r %r' % (spec, small, key))
-            sf = sf[0]
+            wk = (json.dumps(small, sort_keys=True), key)
+            sf = reducer.witness.get(wk)
+            if sf is None:
+                sf = [g for g in examine(small)['fails'] if fkey(g) == key]
+                if not sf:
+                    raise HarnessError('reduced witness does not fail: %r -> %r %r' %
+                                       (spec, small, key))
+                sf = reducer.witness[wk] = sf[0]
         case = dict(small, v=sf['v'])
         acc.violation(signature(sf, small), case, sf['expected'], sf['observed'])
 
@@ -680,30 +745,35 @@ def probes_for(typ):
     return 'full' if typ in ('uint8', 'sint8') else 'bounds'
 
 
+def shard_sequences(shard):
+    for first in shard['firsts']:
+        for seq in sequences(shard['len'], first):
+            yield seq
+
+
 def cases_core(shard, b):
     typ = shard['type']
-    for seq in sequences(b['valuemap_len'], shard['first']):
+    for seq in shard_sequences(shard):
         vm = [render(a, typ) for a in seq]
         yield mkspec(vm, VALSTR[:len(vm)], None, typ, probes=probes_for(typ))
 
 
 def cases_sizes(shard, b):
     typ = shard['type']
-    for seq in sequences(b.get('sizes_len', b['valuemap_len']), shard['first']):
+    for seq in shard_sequences(shard):
         vm = [render(a, typ) for a in seq]
         for vals, d in values_variants(len(vm)):
-            yield mkspec(vm, list(vals), d, typ, probes=probes_for(typ))
+            yield mkspec(vm, list(vals), d, typ)
 
 
 def cases_kinds(shard, b):
-    typ, kind, route = shard['type'], shard['kind'], shard['route']
-    maxlen = b['kinds_faked_len'] if route == 'faked' else b['kinds_len']
-    for first in range(-1, len(ATOMS)):
-        for seq in sequences(maxlen, first):
-            vm = [render(a, typ) for a in seq]
-            n = len(vm)
+    typ, route = shard['type'], shard['route']
+    for seq in shard_sequences(shard):
+        vm = [render(a, typ) for a in seq]
+        n = len(vm)
+        for kind in KINDS:
             for vals, d in ((VALSTR[:n], None), (VALSTR[:n + 1], DFLT), (VALSTR[:max(0, n - 1)], DFLT)):
-                yield mkspec(vm, list(vals), d, typ, kind, route, probes_for(typ), cimint=True)
+                yield mkspec(vm, list(vals), d, typ, kind, route, cimint=True)
 
 
 def cases_novm(shard, b):
@@ -739,7 +809,7 @@ def cases_special(shard, b):
 
 def cases_wide(shard, b):
     typ = shard['type']
-    for seq in sequences(b['wide_len'], shard['first']):
+    for seq in shard_sequences(shard):
         vm = [render(a, typ) for a in seq]
         yield mkspec(vm, VALSTR[:len(vm)], None, typ, probes='full')
 
@@ -748,29 +818,38 @@ FAMILIES = {'core': cases_core, 'sizes': cases_sizes, 'kinds': cases_kinds, 'nov
             'special': cases_special, 'wide': cases_wide}
 
 
+ALL_FIRSTS = list(range(-1, len(ATOMS)))
+
+
+def groups(n):
+    """ALL_FIRSTS split into n interleaved groups"""
+    return [ALL_FIRSTS[i::n] for i in range(n)]
+
+
 def plan(tier, seed):
     b = BOUNDS[tier]
     shards = []
-    firsts = list(range(-1, len(ATOMS)))
     for typ in TYPES:
-        for first in firsts:
-            shards.append(dict(check='core', type=typ, first=first))
-    for typ in TYPES[:b['sizes_types']]:
-        for first in firsts:
-            shards.append(dict(check='sizes', type=typ, first=first))
+        # every value is probed for the 8-bit types: one shard per first atom
+        for firsts in groups(len(ALL_FIRSTS) if typ in ('uint8', 'sint8') else 5):
+            shards.append(dict(check='core', type=typ, firsts=firsts, len=b['valuemap_len']))
     for typ in TYPES:
-        for kind in KINDS:
-            shards.append(dict(check='kinds', type=typ, kind=kind, route='stub'))
+        if typ in b['sizes_long_types']:
+            for firsts in groups(len(ALL_FIRSTS)):
+                shards.append(dict(check='sizes', type=typ, firsts=firsts, len=b['sizes_len_long']))
+        else:
+            for firsts in groups(b['sizes_short_groups']):
+                shards.append(dict(check='sizes', type=typ, firsts=firsts, len=b['sizes_len_short']))
     for typ in TYPES:
-        for kind in KINDS:
-            shards.append(dict(check='kinds', type=typ, kind=kind, route='faked'))
-    for typ in TYPES:
+        shards.append(dict(check='kinds', type=typ, route='stub', firsts=ALL_FIRSTS, len=b['kinds_len']))
+        shards.append(dict(check='kinds', type=typ, route='faked', firsts=ALL_FIRSTS,
+                           len=b['kinds_faked_len']))
         shards.append(dict(check='novm', type=typ))
     shards.append(dict(check='special'))
     if b['wide_len']:
         for typ in ('uint16', 'sint16'):
-            for first in firsts:
-                shards.append(dict(check='wide', type=typ, first=first))
+            for firsts in groups(len(ALL_FIRSTS)):
+                shards.append(dict(check='wide', type=typ, firsts=firsts, len=b['wide_len']))
     # big shards first (better packing); the order never changes what is explored
     weight = {'wide': 0, 'core': 1, 'sizes': 2, 'kinds': 3, 'novm': 4, 'special': 5}
     shards.sort(key=lambda s: (weight[s['check']], s.get('type') not in ('uint8', 'sint8')))
@@ -782,7 +861,9 @@ def run_shard(shard, tier):
     acc = Acc()
     reducer = Reducer()
     for spec in FAMILIES[shard['check']](shard, BOUNDS[tier]):
-        record(spec, examine(spec), acc, reducer)
+        res = examine(spec)
+        reducer.note(spec, res)
+        record(spec, res, acc, reducer)
     acc.count('reduction_tests', reducer.tests)
     return acc
 
